@@ -111,6 +111,8 @@ pub struct Layout {
     pub regions: usize,
     /// whether the type carries its own vftable pointer at offset 0
     pub own_vfptr: bool,
+    /// end of the vftable pointer region (0 when there is none)
+    pub vfptr_end: u64,
     /// all rejection reasons that apply (empty = realisable)
     pub rejects: Vec<Reject>,
 }
@@ -224,6 +226,7 @@ pub fn layout(t: &TypeS, ps: u64, env: &Env, own_vfptr: bool) -> Layout {
         align,
         regions,
         own_vfptr,
+        vfptr_end: if own_vfptr { ps } else { 0 },
         rejects,
     }
 }
